@@ -14,6 +14,7 @@ import random
 import numpy as np
 import sympy as sp
 
+from .. import ampl_universe as U
 from .. import ampl, ampl_run, trace
 from ..core import Machinery
 
@@ -193,6 +194,31 @@ def run(chk, replay=None):
         chk.violation(sig, f"{clause} rejected for {label} cfg={byid[rid][2]}: {str(info)[:700]}", {"label": label, "cfg": byid[rid][2], "record": byid[rid][4]})
     for d in drifts:
         chk.spec_drift(f"{d[1]} ({byid[d[2]][0] if d[2] in byid else d[2]})")
+    # identical final-state particles WITH spin, synthetic: two final-state ids carry one particle.  The per-key clauses are not
+    # judged there (the unchanged tree fails them for the reason of the listed psi(2S) finding); the chain clauses and the
+    # completeness of every coherence class are.
+    def twin_spec(r):
+        return U.synth_spec(r, nfs=r.choice([3, 3, 4]), identical=True, maxspin2=2, ntop=1, name_by="set")
+
+    tcases = ampl_run.build_cases(chk, n_synth=30 if tier == "thorough" else 4, configs=lambda r, re_, l: iter([{}]), real=[], which={"formula"},
+                                  budget_s=300 if tier == "thorough" else 25, spec_fn=twin_spec)
+    tcases = [c for c in tcases if c[3] is not None and len(c[4]["trs"]) <= 48]
+    if tcases:
+        tvt, tdrifts, tbyid = ampl_run.validate(chk, tcases, name="trace_amplitude_identical_particles_with_spin")
+        not_judged = 0
+        for clause, rid, info in tvt.rejects:
+            rec_ = tbyid[rid][4]
+            if clause in PER_KEY_CLAUSES and unequal_identical(rec_["trs"]):
+                not_judged += 1
+                continue
+            chk.violation(f"{clause}:{'canonical' if rec_['canonical'] else 'helicity'}:identical-particles-with-spin",
+                          f"{clause} rejected for {tbyid[rid][0]} (two final-state ids carry one particle with spin): {str(info)[:600]}", {"label": tbyid[rid][0], "record": rec_})
+        chk.count(len(tcases))
+        for c in tcases:
+            chk.nontrivial(("twin", c[4]["canonical"], len(c[4]["trs"]), ampl.digest(c[4]["trs"])))
+        chk.part("identical_particles_with_spin", models=len(tcases), chains=tvt.stats.get("chains", 0),
+                 per_key_rejects_in_the_domain_of_the_listed_finding_not_judged=not_judged,
+                 judged="chain-wignerD, chain-clebsch-gordan, symmetrised-chains-complete-per-coherence-class, closure")
     # the assigned lineshape is part of the formula: every node of every chain carries the builder's
     # expression on its own variables (tagged builders; Trace_Dynamics recomputes the expectation)
     from . import c13
